@@ -147,7 +147,7 @@ def random_runs(ctx, n, seed):
         out.append({"id": "random/%d-loss%d-s%d" % (k, loss, nsess), "transport": "udp",
                     "mtu": rnd.choice([1280, 1400, 1500, 1337]), "cpat": rnd.choice(pats), "spat": rnd.choice(pats),
                     "loss": loss, "dup": rnd.choice([0, 5, 15]), "delay": rnd.choice([0, 10, 30]),
-                    "sessions": sessions.keep_open(sess), "seed": seed * 1000 + k, "expect": "complete", "limit": 1800, "notx": True})
+                    "sessions": sessions.keep_open(sess), "seed": seed * 1000 + k, "expect": "complete", "limit": 1800, "notx": 1})
     return out
 
 
